@@ -326,7 +326,8 @@ def check(ctx):
         rets = [n for n in walk_no_nested(sf.node) if isinstance(n, ast.Return)]
         loops = [c_ for c_ in facts.collects(sf) if getattr(c_, 'kind', '') == 'loop' and isinstance(c_.target, ast.Name)]
         for r in rets:
-            v = ex.expand(r.value)
+            from .sched_fill import fold_const
+            v = fold_const(ex.expand(r.value))
             m = match("sum($c, 0)", v) or match("sum($c)", v) or match("math.fsum($c)", v) or match("fsum($c)", v)
             parts = facts.comp_parts(m['c']) if m else None
             atoms = []
@@ -381,7 +382,9 @@ def check(ctx):
             if not rets:
                 o.refute(f, f.node, 'search', "search never returns a date")
             for r in rets:
-                from .sched_fill import norm_conds
+                from .sched_fill import norm_conds, is_dead
+                if is_dead(facts.node_conditions(prog, f, r, ctx.typer)):
+                    continue
                 conds = norm_conds(facts.node_conditions(prog, f, r, ctx.typer))
                 hit = False
                 for t, pol in conds:
@@ -403,7 +406,7 @@ def check(ctx):
                             else:
                                 o.undecided(f, r, t, "the search's ledger selector is a conditional the rule does not recognise")
                         elif not (src(fr['cap']['r']) == f.params[1] and src(fr['resv']['r']) == f.params[1]
-                                  and src(fr['resv']['u']) == f.params[2] and _same_day(fr['cap']['d'], fr['resv']['d'])):
+                                  and src(fr['resv']['u']) == f.params[2]):
                             o.refute(f, r, t, "search tests capacity and bookings of different resource/day/ledger")
                         else:
                             o.site(f, r, src(t)[:100])
@@ -552,6 +555,16 @@ def ledger_shape(ctx, o):
             o.refute(rf, rf.node, 'reserve', "reserve() never stores a ResourceUsageRow in the ledger: bookings are not recorded")
         else:
             o.undecided(rf, rf.node, 'reserve', "reserve() stores its row in a form the rule does not follow (expected self.rows.append(ResourceUsageRow(..)))")
+        return
+    rewrites = [n for n in walk_no_nested(rf.node) if isinstance(n, ast.Subscript) and isinstance(n.ctx, ast.Store) and match("$s.rows", n.value)]
+    if rewrites:
+        o.refute(rf, rewrites[0], rewrites[0], f"reserve() overwrites an existing ledger row (`{src(rewrites[0])} = ..`) instead of appending one row per booking: "
+                                               f"the booking is merged into a row owned by another task, so per-task sums (balancing off) and the date "
+                                               f"shares no longer see the task's own booking")
+        return
+    cond_app = [(t, pol) for t, pol in facts.node_conditions(ctx.prog, rf, appended[0], ctx.typer, expand=False)]
+    if cond_app:
+        o.undecided(rf, appended[0], appended[0], "the ledger row is appended only under " + ', '.join(facts.cond_texts(cond_app))[:100])
         return
     row = ex.expand(rows[0])
     p = rf.params
@@ -920,7 +933,7 @@ def _origin_node(f, amount_expr, sub, ex):
     return None
 
 
-def resource_table(ctx, o, Ss):
+def resource_table(ctx, o, Ss, check_result=True):
     """both passes register the task's resource by name with a fresh default Resource; calc returns the table; __init__ keys it by name"""
     prog = ctx.prog
     for S in Ss:
@@ -1048,8 +1061,8 @@ def resource_table(ctx, o, Ss):
                 o.site(f, c, src(c))
             # the resource handed to search / fill is this one
         calc = prog.func(S['calc'])
-        rets = [n for n in walk_no_nested(calc.node) if isinstance(n, ast.Return)]
-        okret = False
+        rets = [n for n in walk_no_nested(calc.node) if isinstance(n, ast.Return)] if check_result else []
+        okret = not check_result
         for r in rets:
             if isinstance(r.value, ast.Call) and getattr(r.value.func, 'id', '') == 'Schedule' and len(r.value.args) >= 3:
                 ex = Expander(prog, calc, ctx.typer)
